@@ -417,6 +417,18 @@ func c18Run(k c18Case, st *c18Stats) (int, string) {
 				if pad > m.pos.Padding {
 					m.pos.Padding = pad
 				}
+			case "Pad0":
+				// AdvanceAndSetPadding(0, p): no byte is consumed, the line gets p virtual leading spaces (p larger than the
+				// current padding, smaller than a tab stop)
+				pad := 1 + o.Arg%3
+				if m.atEnd() || pad <= m.pos.Padding || m.pos.Start >= m.pos.Stop {
+					name = ""
+					return
+				}
+				rd.AdvanceAndSetPadding(0, pad)
+				m.pos.Padding = pad
+				name = "AdvanceAndSetPadding"
+				desc = checkPos("AdvanceAndSetPadding(0, p)")
 			case "Value":
 				if k.Block {
 					// segments inside one line: a segment that starts at the head of the line carries the line's padding
@@ -425,7 +437,14 @@ func c18Run(k c18Case, st *c18Stats) (int, string) {
 						name = ""
 						return
 					}
-					ln := lines[o.Arg%len(lines)]
+					li := (o.Arg + o.Arg2*17) % len(lines)
+					if o.Arg%4 == 0 {
+						li = len(lines) - 1 - (o.Arg/4)%2%len(lines)
+						if li < 0 {
+							li = 0
+						}
+					}
+					ln := lines[li]
 					if ln.Stop-ln.Start == 0 {
 						name = ""
 						return
@@ -713,7 +732,7 @@ func runC18(c *core.Ctx) {
 	// 2. random
 	r := c.Rng
 	nr := c.PerShard(c.N(400000, 60000000))
-	names := []string{"PeekLine", "Peek", "Advance", "Advance", "Advance1", "AdvanceRest", "AdvanceLine", "Save", "Restore", "Restore", "LineOffset", "FindClosure", "FindClosureAdv", "TabPad", "Value", "ResetPosition"}
+	names := []string{"PeekLine", "Peek", "Advance", "Advance", "Advance1", "AdvanceRest", "AdvanceLine", "Save", "Restore", "Restore", "LineOffset", "FindClosure", "FindClosureAdv", "TabPad", "Value", "ResetPosition", "Pad0"}
 	alpha := append(append([]string{}, c18Alpha...), "ab", "\n", "  ", "[x]", "(", ")", "``", "\\]", "\r\n", "\t\t")
 	for i := 0; i < nr; i++ {
 		var sb []byte
@@ -740,7 +759,7 @@ func runC18(c *core.Ctx) {
 	// 3. long sources: the number of lines at every boundary size (a reader that caches per-line data in a bounded table, or
 	// bounds a look-ahead, changes behaviour beyond some line count), several saved positions, jumps far back and forth
 	longNames := []string{"PeekLine", "Peek", "Advance", "AdvanceRest", "AdvanceLine", "AdvanceLines", "AdvanceLines", "SaveK", "SaveK", "RestoreK", "RestoreK", "RestoreK",
-		"LineOffset", "LineOffset", "FindClosure", "FindClosure", "FindClosureAdv", "TabPad", "ResetPosition"}
+		"LineOffset", "LineOffset", "FindClosure", "FindClosure", "FindClosureAdv", "TabPad", "ResetPosition", "Value", "Value", "Pad0"}
 	lk := 0
 	for _, nl := range wl.BoundarySizes {
 		if nl < 2 || nl > 1100 {
